@@ -40,20 +40,21 @@ TRUSTED = [
     "C07 floats: the implementation computes in IEEE doubles and `round(x, 1)`, the model in exact rationals; results are compared with tolerance 0.05 + 1e-9 + a computed bound on the double rounding of the inputs (near-boundary cases counted in the evidence)",
     "C07 renderer: `/proc/stat` as printed by fs/proc/stat.c (`cpu  ` + 7–10 decimal columns, `cpuN ` lines, other lines not starting with `cpu`) is a trusted transcription; tokens are decimal digit strings or strings `float()` rejects",
     "C07 threads: the thread id is `threading.current_thread().ident`; dictionary get/set are atomic under the GIL (the interleaving theorem is at that granularity); an identifier handed out again after a thread ended IS modelled (C07_ident_reuse_inherits) and exercised with really re-used identifiers",
-    "C07 token grammar: the kernel prints every counter as `%llu` = Spec.isKernelTok (proved to be exactly the renderer's tokens, C07_grammar_exact); validated on every run against the live /proc/stat of the host (each token asked of the Lean recogniser; the whole file re-rendered byte-identically by the Lean renderer when it has <= 10 columns and CPUs numbered 0..n-1)",
+    "C07 token grammar: the kernel prints every counter as `%llu` = Spec.isKernelTok (proved to be exactly the renderer's tokens, C07_grammar_exact); validated on every run against the live /proc/stat of the host (each token asked of the Lean recogniser; the whole file re-rendered byte-identically by the Lean renderer when it has <= 10 columns and CPUs numbered 0..n-1) AND against every file the generators of the claimed families script (token_hypothesis:* counters; the Python twins of the recognisers are validated against the Lean ones on a sample of the distinct tokens)",
+    "C07 float() on the two claimed token classes: a string of ASCII digits is read as its decimal value (leading zeros included), a token containing a byte outside `0-9 + - . _ e E` and the letters of inf/infinity/nan raises ValueError; everything between (1e3, +5, --1, nan …) is outside the claim (compared with the model only, or recorded)",
     "C07 fresh import: the module-level priming code is run for real in a child interpreter whose builtins.open serves scripted /proc/stat contents (wrapper from outside, no source hook)",
     "C07 Process.cpu_percent: /proc/<pid>/stat parsing itself is C06's subject; here utime/stime reach the model as tick counts",
 ]
 MANIFEST = {
-    "level_text": "Machine-checked Lean 4 proofs over an exact-rational model of the Linux /proc/stat parser and of the cpu_percent / cpu_times_percent / Process.cpu_percent front ends: parse∘render round trip for every kernel state (C07_times_exact, C07_per_cpu_times_exact, kernel order C07_fields_kernel_order), cpu_percent = round1(100·busy/total) for all rational samples and all four field sets (C07_percent_formula), range [0,100] (C07_percent_range), decreasing counters contribute zero (C07_decreasing_field_contributes_zero), guest not double counted (C07_guest_not_double_counted, C07_guest_accounting), cpu_times_percent shares within [0,100] (C07_tp_range) adding up to exactly 100 before rounding and within 0.05 per field after (C07_tp_sum_exact, C07_tp_sum_rounded) for EVERY positive total; the full statement C07_tp_sum_Full is proved for the guard `100/all_delta if all_delta > 0` (C07_tp_sum_fixed), proved for totals ≥ 1 s for the current guard (C07_tp_sum_partial) and REFUTED for the current `max(1, all_delta)` guard with a 0.1 s witness (C07_tp_sum_counterexample; known finding C07-tp-subsecond); every call is measured against the same thread's previous sample for every history (C07_own_previous_sample, by induction), thread independence for serial histories and for every interleaving of dictionary accesses (C07_thread_independence, C07_thread_independence_interleaved), Process.cpu_percent formula/first call/negative interval/object independence (C07_proc_percent, …); the full statement for ANY sequence of CPU counts (C07_proc_percent_Full) is proved at full strength for the code as it is now (C07_proc_percent_code, through the obligation cfg_proc_scale_delta on the shape `delta_time = (st2 - st1) * num_cpus` over raw time stamps, C07_proc_percent_fixed) and REFUTED for the code as found, which subtracted `timer()*num_cpus` products of two different calls (C07_proc_percent_counterexample: 2 -> 1 CPUs gives a negative percentage; C07-cpu-count-change, fixed in /repo by 73df480); 'since module import': from the state the module-level code leaves, for every history (C07_since_import, C07_first_call_after_import); per-CPU lists of different lengths (C07_percpu_any_lengths, C07_percpu_cpu_count_change: one value per CPU present in both samples, position by position); threads versus identifiers (C07_own_thread_partial under distinct identifiers, C07_ident_reuse_inherits, C07_ident_reuse_counterexample); the kernel token grammar (C07_token_grammar, C07_grammar_exact, C07_grammar_tokens_parse). The model is tied to the code by 21 translator facts feeding the proof obligations cfg_good / cfg_proc_scale_delta and by a differential run of the real functions on generated kernel states, call histories from real threads (also short-lived ones whose identifiers are handed out again), fresh imports in a child interpreter, Process histories with changing CPU counts, and the live /proc/stat.",
-    "level_note": "Partial: IEEE doubles are modelled by exact rationals (tolerance stated); the sum-to-100 clause is false of the current code for 0 < total < 1 s (C07-tp-subsecond, the one known finding left; no repair that keeps test_cpu_steal_decrease green); Process.cpu_percent with a CPU count that changes between two calls was false of the code as found and is fixed by 73df480 (proved at full strength for the current code: C07_proc_percent_code); the thread-level statement needs distinct thread identifiers (false otherwise, by design of the code; what is returned is proved); tokens float() accepts but no kernel prints are outside the claim; thread steps are dictionary accesses (GIL atomicity assumed).",
+    "level_text": "Machine-checked Lean 4 proofs over an exact-rational model of the Linux /proc/stat parser and of the cpu_percent / cpu_times_percent / Process.cpu_percent front ends: parse∘render round trip for every kernel state (C07_times_exact, C07_per_cpu_times_exact, kernel order C07_fields_kernel_order), cpu_percent = round1(100·busy/total) for all rational samples and all four field sets (C07_percent_formula), range [0,100] (C07_percent_range), decreasing counters contribute zero (C07_decreasing_field_contributes_zero), guest not double counted (C07_guest_not_double_counted, C07_guest_accounting), cpu_times_percent shares within [0,100] (C07_tp_range) adding up to exactly 100 before rounding and within 0.05 per field after (C07_tp_sum_exact, C07_tp_sum_rounded) for EVERY positive total; the full statement C07_tp_sum_Full is proved for the guard `100/all_delta if all_delta > 0` (C07_tp_sum_fixed), proved for totals ≥ 1 s for the current guard (C07_tp_sum_partial) and REFUTED for the current `max(1, all_delta)` guard with a 0.1 s witness (C07_tp_sum_counterexample; known finding C07-tp-subsecond); every call is measured against the same thread's previous sample for every history (C07_own_previous_sample, by induction), thread independence for serial histories and for every interleaving of dictionary accesses (C07_thread_independence, C07_thread_independence_interleaved), Process.cpu_percent formula/first call/negative interval/object independence (C07_proc_percent, …); the full statement for ANY sequence of CPU counts (C07_proc_percent_Full) is proved at full strength for the code as it is now (C07_proc_percent_code, through the obligation cfg_proc_scale_delta on the shape `delta_time = (st2 - st1) * num_cpus` over raw time stamps, C07_proc_percent_fixed) and REFUTED for the code as found, which subtracted `timer()*num_cpus` products of two different calls (C07_proc_percent_counterexample: 2 -> 1 CPUs gives a negative percentage; C07-cpu-count-change, fixed in /repo by 73df480); 'since module import': from the state the module-level code leaves, for every history (C07_since_import, C07_first_call_after_import); per-CPU lists of different lengths (C07_percpu_any_lengths, C07_percpu_cpu_count_change: one value per CPU present in both samples, position by position); threads versus identifiers (C07_own_thread_partial under distinct identifiers, C07_ident_reuse_inherits, C07_ident_reuse_counterexample); the kernel token grammar (C07_token_grammar, C07_grammar_exact, C07_grammar_tokens_parse); cpuN lines carrying their own numbers, offline CPUs left out (C07_times_any_numbering, C07_percpu_numbered_by_position, C07_percpu_by_number_partial, and the characterisation C07_percpu_by_number_counterexample for a CPU that goes offline in the middle of the list); the parser on ANY bytes (C07_cpu_times_any_bytes, C07_per_cpu_times_any_bytes: ValueError exactly when a converted token is not a digit string — C07_valueError_exactly_when —, else TypeError exactly when fewer than nf tokens — C07_typeError_exactly_when —, tokens beyond column nf ignored — C07_columns_beyond_ignored —, per-CPU list exactly when every cpu line is well formed — C07_per_cpu_ok_exactly_when —, token classes C07_token_classes / C07_foreign_token_raises / C07_leading_zeros); a blocking call files its post-sleep sample as the thread's last sample (C07_blocking_sample_is_remembered, obligation cfg_blocking_stores). The model is tied to the code by 22 translator facts feeding the proof obligations cfg_good / cfg_proc_scale_delta / cfg_blocking_stores and by a differential run of the real functions on generated kernel states (also with numbered cpuN lines), a systematic malformed-token stream compared with the byte-level specification, call histories from real threads (also short-lived ones whose identifiers are handed out again; non-blocking/blocking/non-blocking on one thread for all four variants), fresh imports in a child interpreter, Process histories with changing CPU counts, and the live /proc/stat; the kernel-token hypothesis is checked on every scripted and on the live file.",
+    "level_note": "Partial: IEEE doubles are modelled by exact rationals (tolerance stated); the sum-to-100 clause is false of the current code for 0 < total < 1 s (C07-tp-subsecond, the one known finding left; no repair that keeps test_cpu_steal_decrease green); Process.cpu_percent with a CPU count that changes between two calls was false of the code as found and is fixed by 73df480 (proved at full strength for the current code: C07_proc_percent_code); the thread-level statement needs distinct thread identifiers (false otherwise, by design of the code; what is returned is proved); tokens that are neither digit strings nor certainly rejected by float() (1e3, +5, nan, --1 …) are outside the claim; per-CPU entries are positions in the printed list (equal to CPU numbers whenever both samples list the same CPUs); thread steps are dictionary accesses (GIL atomicity assumed).",
     "technique": "Lean 4 proofs (field arithmetic over ℚ, round-trip, induction over histories and interleavings) + translator-fed proof obligation + differential correspondence through a fake /proc/stat with real threads",
     "design_ref": "DESIGN.md §5 C07",
 }
 ASSUMPTIONS = [
     "USER_HZ (CLOCK_TICKS) > 0; the kernel prints at least as many columns as it did when psutil was imported",
     "counters fit a u64; tokens of /proc/stat are in the grammar Spec.isKernelTok = 0|[1-9][0-9]* (malformed stream: strings float() rejects); strings float() accepts but no kernel prints (1e3, +5, nan, 1_0, inf, 1.5 …) are outside the claim — what the real parser does with them is recorded in the evidence, never compared",
-    "per-CPU results: CPU numbers are positions in the kernel's list (psutil ignores the N of cpuN); a kernel that leaves out an offline CPU in the middle of the list is outside the model",
+    "per-CPU results: psutil ignores the N of cpuN, entry k is the k-th printed line (C07_times_any_numbering, C07_percpu_numbered_by_position: any numbering, gaps included). 'For each CPU separately' in terms of CPU NUMBERS holds whenever both samples list the same CPUs (C07_percpu_by_number_partial) and is false of the code when a CPU in the middle goes offline between two samples (C07_percpu_by_number_counterexample) — a characterisation beyond the property's quantifier (which fixes the CPUs of a sequence of snapshots), not a finding",
     "thread-level reading of 'own previous sample' needs distinct identifiers for the threads involved (IdentInjectiveOn); without it C07_ident_reuse_counterexample applies and C07_ident_reuse_inherits says what is returned",
     "float corner outside the claim: if NO non-guest counter advanced while BOTH guest and guest_nice did, (g+gn)-g-gn may leave a 1e-17 residue in doubles and cpu_percent() reports busy instead of 0.0 (counted as float_cancellation_corner)",
 ]
@@ -419,15 +420,16 @@ def mutate_bytes(rng, data):
     return data + b"cpu9 1 2 3 oops 5 6 7 8 9 10\n", kind
 
 
-def render_snapshot(vlen_cols, cpus_ticks, agg=None, other=(b"intr 5", b"btime 1700000000")):
-    """Python twin of Spec.renderProcStat used only to script snapshots for call histories (the
-    world family validates it byte-for-byte against the Lean renderer on every run)."""
+def render_snapshot(vlen_cols, cpus_ticks, agg=None, other=(b"intr 5", b"btime 1700000000"), labels=None):
+    """Python twin of Spec.renderProcStat / renderProcStatL (`labels` = the CPUs' own numbers) used only to
+    script snapshots for call histories (the world and numbered-CPU families validate it byte-for-byte
+    against the Lean renderers on every run)."""
     ncols = vlen_cols
     if agg is None:
         agg = [min(sum(c[i] for c in cpus_ticks), U64) for i in range(10)] if cpus_ticks else [0] * 10
     out = [b"cpu  " + b" ".join(str(x).encode() for x in agg[:ncols])]
     for i, c in enumerate(cpus_ticks):
-        out.append(b"cpu%d " % i + b" ".join(str(x).encode() for x in c[:ncols]))
+        out.append(b"cpu%d " % (i if labels is None else labels[i]) + b" ".join(str(x).encode() for x in c[:ncols]))
     out.extend(other)
     return b"\n".join(out) + b"\n"
 
@@ -599,10 +601,261 @@ def gen_proc_history(rng, impl, family):
     return {"kind": "phist", "family": family, "pids": pids, "objs": objs, "ops": ops}
 
 
+# ------------------------------------------------------------------------------ the token hypothesis, made explicit
+
+KERNEL_RE = re.compile(rb"0|[1-9][0-9]*")          # Python twin of Spec.isKernelTok
+DIGIT_RE = re.compile(rb"[0-9]+")                  # … of Spec.isDigitTok
+FLOAT_ALPHABET = frozenset(b"0123456789+-._eEiInNfFtTyYaA")     # … of Spec.inFloatAlphabet
+
+
+def tok_class(t):
+    """kernel ⊂ digit | foreign | between (neither: `1e3`, `+5`, `--1`, `nan` … outside the claim)."""
+    if KERNEL_RE.fullmatch(t):
+        return "kernel"
+    if DIGIT_RE.fullmatch(t):
+        return "digit"
+    if any(b not in FLOAT_ALPHABET for b in t):
+        return "foreign"
+    return "between"
+
+
+class TokenHypothesis:
+    """HYPOTHESIS of C07_times_exact & co.: every counter token of a `/proc/stat` is in Spec.isKernelTok. Checked
+    for EVERY file the generators of the claimed families script (and for the live file, live_validate): each
+    token after the label of each `cpu…` line (and the digits of the label) with the Python twin of the
+    recogniser; the twins themselves are validated against the Lean recognisers on a sample of the distinct
+    tokens at the end of the run (`validate`)."""
+
+    def __init__(self, res):
+        self.res = res
+        self.seen = set()
+        self.bad = []
+
+    def claimed_file(self, data, where):
+        n = 0
+        for line in data.split(b"\n"):
+            if not line.startswith(b"cpu"):
+                continue
+            toks = line.split()
+            if toks and toks[0] != b"cpu":
+                toks = [toks[0][3:]] + toks[1:]
+            else:
+                toks = toks[1:]
+            for t in toks:
+                n += 1
+                if t not in self.seen:
+                    self.seen.add(t)
+                    if not KERNEL_RE.fullmatch(t):
+                        self.bad.append((where, t))
+        self.res.count("token_hypothesis:claimed_files")
+        self.res.count("token_hypothesis:tokens_checked", n)
+
+    def note(self, toks):
+        self.seen.update(toks)
+
+    def validate(self, ctx, budget):
+        res = self.res
+        for where, t in self.bad[:3]:
+            res.disagree("model", {"kind": "tokens", "tok": t.decode("latin1"), "where": where}, None, None, None,
+                         note="a generator of a CLAIMED family scripted a token outside the kernel grammar Spec.isKernelTok")
+        toks = sorted(self.seen)
+        if len(toks) > budget:
+            keep = set(ctx.rng.sample(toks, budget - 40))
+            keep.update(toks[:20] + toks[-20:])
+            toks = sorted(keep)
+        out = ctx.driver().batch([{"op": "tokens", "toks": [t.hex() for t in toks]}])[0]
+        n_bad = 0
+        for t, g, dg, fo in zip(toks, out["grammar"], out["digit"], out["foreign"]):
+            c = tok_class(t)
+            want = "kernel" if g else "digit" if dg else "foreign" if fo else "between"
+            if c != want or (g and not dg) or (dg and fo):
+                n_bad += 1
+                if n_bad <= 3:
+                    res.disagree("model", {"kind": "tokens", "tok": t.decode("latin1")}, c, want, None,
+                                 note="Python twin of the token recognisers disagrees with Spec.isKernelTok/isDigitTok/isForeignTok")
+            res.count("token_hypothesis:lean_validated:" + want)
+        res.count("token_hypothesis:distinct_tokens", len(self.seen))
+
+
+FOREIGN_TOKENS = [b"x", b"12x", b"0x10", b"1,5", b"(3)", b"cpu", b"\xb2", b"1\x002", b"7%", b"4/2", b"1:2"]
+DIGIT_NONKERNEL_TOKENS = [b"007", b"00", b"0000000000000000000042"]
+
+
+def malformed_token_lines(rng, tck):
+    """Malformed-token stream, systematically: ONE token of the first line / of a `cpuN` line replaced, at EVERY
+    position 1..11, by a foreign token (float() raises for sure) or by a digit string no kernel prints (leading
+    zeros: float() reads the value); also on lines too short for the field set (ValueError must win over
+    TypeError) and beyond column nf (must be ignored). All inside the two claimed token classes, so the real
+    parser is compared with the SPECIFICATION Spec.lineOutcome / linesOutcome (C07_valueError_exactly_when …)."""
+    lines, tags = [], []
+    for vlen in (7, 8, 10):
+        for where in ("first", "cpu0", "cpu1"):
+            for pos in range(1, 12):
+                for ncols in (11, vlen, max(pos, 1), vlen - 2):
+                    tok = rng.choice(FOREIGN_TOKENS) if rng.random() < 0.7 else rng.choice(DIGIT_NONKERNEL_TOKENS)
+                    rows = [[str(rng.randrange(0, 10 ** rng.randrange(1, 9))).encode() for _ in range(ncols)]
+                            for _ in range(3)]
+                    if pos - 1 >= ncols:
+                        continue
+                    rows[{"first": 0, "cpu0": 1, "cpu1": 2}[where]][pos - 1] = tok
+                    data = b"cpu  " + b" ".join(rows[0]) + b"\ncpu0 " + b" ".join(rows[1]) + b"\ncpu1 " + \
+                        b" ".join(rows[2]) + b"\nintr 1 2 x\nbtime 17\n"
+                    lines.append({"op": "times", "vlen": vlen, "tck": tck, "data": data.hex()})
+                    nf = min(max(vlen, 7), 10)
+                    tags.append("malformed_tok:%s:%s:%s" % (tok_class(tok), "converted" if pos <= nf else "beyond_nf",
+                                                            "short_line" if ncols < nf else "full_line"))
+    return lines, tags
+
+
+def gen_numbered(rng, impl, witness=False):
+    """Two kernel states whose `cpuN` lines carry their own numbers (a kernel prints online CPUs only)."""
+    tck = impl.tck
+    if witness:
+        # C07_percpu_by_number_counterexample: CPU 1 (1 s used) goes offline, CPU 2 is then busy for 1 s
+        z, u = [0] * 10, [tck] + [0] * 9
+        return {"op": "percpul", "vlen": 10, "tck": tck, "ncols": 10,
+                "w1": {"total": u, "cpus": [[0, z], [1, u], [2, z]], "other": []},
+                "w2": {"total": u, "cpus": [[0, z], [2, u]], "other": []}, "family": "corpus-offline"}
+    vlen = rng.choice([7, 8, 9, 10, 10])
+    ncols = rng.randrange(vlen, 11)
+    universe = sorted(rng.sample(range(0, 16), rng.randrange(1, 7)))
+    if rng.random() < 0.25:
+        universe = list(range(len(universe)))                 # the unnumbered special case
+    base = {n: [rng.randrange(0, 10 ** 5) for _ in range(10)] for n in universe}
+    new = {n: evolve(rng, [base[n]], rng.choice(["mixed", "big", "guest", "subsecond"]), tck)[0] for n in universe}
+    l1, l2 = list(universe), list(universe)
+    r = rng.random()
+    fam = "same_online"
+    if r < 0.25 and len(l2) > 1:
+        l2.remove(rng.choice(l2[:-1]))                         # a CPU that is not the last goes offline
+        fam = "offline_middle"
+    elif r < 0.35 and len(l2) > 1:
+        l2 = l2[:-1]
+        fam = "offline_last"
+    elif r < 0.5 and len(l1) > 1:
+        l1.remove(rng.choice(l1))                              # a CPU comes online
+        fam = "online_new"
+    other = [rng.choice(OTHER_POOL) for _ in range(rng.randrange(0, 3))]
+    agg = lambda d, ls: [sum(d[n][i] for n in ls) for i in range(10)]
+    return {"op": "percpul", "vlen": vlen, "tck": tck, "ncols": ncols,
+            "w1": {"total": agg(base, l1), "cpus": [[n, base[n]] for n in l1], "other": [o.hex() for o in other]},
+            "w2": {"total": agg(new, l2), "cpus": [[n, new[n]] for n in l2], "other": [o.hex() for o in other]},
+            "family": fam}
+
+
+def run_numbered(ctx, impl, res, lines, cmp, tokhyp=None):
+    """`cpuN` lines with their own numbers: Lean renderer vs twin, real `cpu_times(percpu=True)` vs ticks/USER_HZ in
+    the order printed (C07_times_any_numbering), a thread's first real `cpu_percent(percpu=True)` vs the model
+    = position by position (C07_percpu_numbered_by_position); when both states list the same CPUs that IS the
+    per-number specification (C07_percpu_by_number_partial, compared as `spec`); when a CPU in the middle went
+    offline it is not (C07_percpu_by_number_counterexample) — counted, never excused."""
+    outs = ctx.driver().batch([{k: v for k, v in ln.items() if k != "family"} for ln in lines])
+    bad = 0
+    for ln, m in zip(lines, outs):
+        if "bad" in m:
+            raise RuntimeError("driver rejected %r: %s" % (ln, m))
+        inp = {"kind": "percpul", "line": ln}
+        ok = True
+        datas = []
+        for key, w in (("data1", ln["w1"]), ("data2", ln["w2"])):
+            twin = render_snapshot(ln["ncols"], [c[1] for c in w["cpus"]], w["total"], [bytes.fromhex(o) for o in w["other"]],
+                                   labels=[c[0] for c in w["cpus"]])
+            if twin.hex() != m[key]:
+                res.disagree("model", inp, twin.hex(), m[key], None, note="harness' numbered renderer differs from Spec.renderProcStatL")
+                ok = False
+            datas.append(twin)
+            if tokhyp is not None:
+                tokhyp.claimed_file(twin, "numbered")
+        if not ok:
+            bad += 1
+            continue
+        if impl.vlen != ln["vlen"]:
+            impl.prime(ln["vlen"])
+        impl.reset_last()
+        im_t = impl.times(datas[1])["per"]
+        if not same_times(im_t, m["times"]["spec"]):
+            res.disagree("spec", inp, im_t, m["times"]["model"], m["times"]["spec"],
+                         note="cpu_times(percpu=True) on numbered cpuN lines differs from ticks/USER_HZ in the order printed")
+            bad += 1
+            continue
+        if not same_times(im_t, m["times"]["model"]):
+            res.disagree("model", inp, im_t, m["times"]["model"], m["times"]["spec"], note="numbered cpuN lines: model differs")
+            bad += 1
+            continue
+        impl.reset_last()
+        op = {"fn": "percent", "tid": 1, "interval": None, "percpu": True, "reads": [d.hex() for d in datas]}
+        im = impl.call(op)
+        same_online = m["same_online"]
+        by_pos = [frac(x) for x in m["by_position"]]
+        by_num = [frac(x) for x in m["by_number"]]
+        mo = m["model"]
+        res.count("numbered:" + ln.get("family", "?"))
+        if mo.get("kind") != "ok" or [frac(x) for x in mo["val"]["v"]] != by_pos:
+            res.disagree("model", inp, im, mo, m["by_position"], note="Lean model differs from Spec.perCpuPercent on numbered CPUs")
+            bad += 1
+            continue
+        if same_online and by_pos != by_num:
+            res.disagree("model", inp, im, m["by_position"], m["by_number"], note="same online CPUs but by-position ≠ by-number in Lean")
+            bad += 1
+            continue
+        kind = "spec" if same_online else "model"
+        want = by_num if same_online else by_pos
+        exact = [frac(x) for x in m["exact"]]       # unrounded, position by position (= by number when same_online)
+        if im.get("kind") != "ok" or im.get("nreads") != 2 or len(im["val"]["v"]) != len(want) or len(exact) != len(want) or \
+                not all(cmp.close(x, q, 1e-4) and 0.0 <= x <= 100.0 and one_decimal(x) for x, q in zip(im["val"]["v"], exact)):
+            res.disagree(kind, inp, im, mo, m["by_number"],
+                         note="cpu_percent(percpu=True) on numbered cpuN lines differs from %s" %
+                              ("the per-CPU-number specification (same CPUs online in both samples)" if same_online
+                               else "the model (position by position)"))
+            bad += 1
+            continue
+        if any(not cmp.is_rounded(x, r) for x, r in zip(im["val"]["v"], want)):
+            res.count("near_boundary")
+        if not same_online:
+            differs = len(by_pos) != len(by_num) or any(abs(a - b) > Fraction(1, 20) for a, b in zip(by_pos, by_num))
+            res.count("numbered:online_set_changed:by_number_%s" % ("DIFFERS(characterised)" if differs else "coincides"))
+        res.case(("percpul", json.dumps(ln, sort_keys=True)), nontrivial=True)
+    return bad
+
+
+def nbn_histories(rng, tck):
+    """Goal of seeded C07-3: on ONE thread, for all four (function, percpu) variants: a non-blocking call, a BLOCKING
+    call during which the CPUs idle, then a non-blocking call after a fully busy second. The last call must be
+    measured from the blocking call's post-sleep sample (C07_blocking_sample_is_remembered): 100 % busy, ONE read."""
+    hs = []
+    for fn in ("percent", "times_percent"):
+        for percpu in (False, True):
+            for first in (True, False):
+                for iv in (None, [0, 1]):
+                    ncpu = rng.choice([1, 2, 3])
+                    cur = [[rng.randrange(0, 1000) for _ in range(10)] for _ in range(ncpu)]
+                    snaps = [render_snapshot(10, cur)]
+
+                    def adv(col, amount):
+                        nonlocal cur
+                        cur = [[v + (amount if i == col else 0) for i, v in enumerate(c)] for c in cur]
+                        snaps.append(render_snapshot(10, cur))
+                    adv(3, 2 * tck)          # idle before the first call returns
+                    adv(3, 10 * tck)         # idle up to the start of the blocking call
+                    adv(3, 10 * tck)         # idle during the blocking call
+                    adv(0, 10 * tck)         # fully busy afterwards
+                    h = [x.hex() for x in snaps]
+                    ops = []
+                    if first:
+                        ops.append({"fn": fn, "interval": iv, "reads": [h[0], h[1]]})
+                    ops.append({"fn": fn, "interval": rng.choice([[1, 10], [10, 1]]), "reads": [h[2], h[3]]})
+                    ops.append({"fn": fn, "interval": iv, "reads": [h[4], h[4]]})
+                    ops = [dict(o, op="call", vlen=10, tck=tck, tid=1, percpu=percpu) for o in ops]
+                    hs.append({"kind": "hist", "family": "nbn", "vlen": 10, "ops": ops})
+    return hs
+
+
 # ------------------------------------------------------------------------------ running & comparing
 
-def run_world(ctx, impl, res, lines, tags, cmp):
-    """lines: list of 'world'/'times' driver lines (each with its own vlen)."""
+def run_world(ctx, impl, res, lines, tags, cmp, tokhyp=None):
+    """lines: list of 'world'/'times' driver lines (each with its own vlen). A 'times' line (arbitrary bytes) is
+    compared with the SPECIFICATION Spec.lineOutcome / linesOutcome whenever every converted token is in one of
+    the two claimed classes (digit string / foreign), else with the model only."""
     outs = ctx.driver().batch(lines)
     bad = 0
     for ln, tag, m in zip(lines, tags, outs):
@@ -618,8 +871,12 @@ def run_world(ctx, impl, res, lines, tags, cmp):
                              note="harness' snapshot renderer differs from the Lean renderer")
                 bad += 1
                 continue
+            if tokhyp is not None:
+                tokhyp.claimed_file(data, "world:" + tag)
         else:
             data = bytes.fromhex(ln["data"])
+            if tokhyp is not None:
+                tokhyp.note(t for l in data.split(b"\n") if l.startswith(b"cpu") for t in l.split()[1:12])
         im = impl.times(data)
         inp = {"kind": "world" if ln["op"] == "world" else "raw", "line": ln}
         spec = m.get("spec")
@@ -631,12 +888,21 @@ def run_world(ctx, impl, res, lines, tags, cmp):
             res.count("times_outcome:%s:%s" % (key, i_["kind"] if i_["kind"] == "ok" else i_["exc"]))
             ok_model = same_times(i_, mo)
             in_spec_domain = sp is not None and ln["op"] == "world" and ln["ncols"] >= min(max(ln["vlen"], 7), 10)
-            if in_spec_domain:
+            raw_claimed = sp is not None and ln["op"] == "times" and m.get("claimed", {}).get(key)
+            if ln["op"] == "times":
+                res.count("raw_bytes:%s:%s" % (key, "claimed(compared with the specification)" if raw_claimed
+                                               else "unclaimed_tokens(model only)"))
+            if in_spec_domain or raw_claimed:
                 if not same_times(i_, sp):
-                    res.disagree("spec", inp, i_, mo, sp, note="cpu_times(%s) differs from ticks/USER_HZ in kernel order" % key)
+                    res.disagree("spec", inp, i_, mo, sp, note=("cpu_times(%s) differs from ticks/USER_HZ in kernel order" % key)
+                                 if in_spec_domain else ("cpu_times(%s) on malformed bytes: outcome differs from Spec.lineOutcome "
+                                                         "(ValueError exactly when a converted token is not a number, else "
+                                                         "TypeError when too few, tokens beyond column nf ignored)" % key))
                     bad += 1
                     continue
                 nontriv = True
+                if raw_claimed and tag.startswith("malformed_tok"):
+                    res.count("%s:%s:%s" % (tag, key, i_["kind"] if i_["kind"] == "ok" else i_["exc"]))
             if not ok_model:
                 res.disagree("model", inp, i_, mo, sp, note="cpu_times(%s) differs from the Lean model" % key)
                 bad += 1
@@ -800,12 +1066,16 @@ def compare_call(res, cmp, hist, idx, op, im, m, nf, tp_max_one, findings_on):
     return "ok"
 
 
-def run_histories(ctx, impl, res, hists, cmp, findings_on=True, impl_results=None):
+def run_histories(ctx, impl, res, hists, cmp, findings_on=True, impl_results=None, tokhyp=None):
     """Execute call histories on impl and model; return list of verdict per history."""
     lines = []
     for h in hists:
         lines.append({"op": "reset"})
         lines.extend(h["ops"])
+        if tokhyp is not None and h.get("family") != "malformed_read":
+            for o in h["ops"]:
+                for r in set(o["reads"]):
+                    tokhyp.claimed_file(bytes.fromhex(r), "hist:" + h["family"])
     outs = ctx.driver().batch(lines)
     tp_max_one = ctx.fact_value("tpMaxOne")
     verdicts = []
@@ -1382,6 +1652,14 @@ def correspond(ctx, res):
         res.extra["clock_ticks"] = impl.tck
         res.extra["host_scputimes_fields"] = list(impl.host_fields)
         total_lines = 0
+        tokhyp = TokenHypothesis(res)
+        phase_t = {}
+        t_mark = [_time.time()]
+
+        def phase(name):
+            now = _time.time()
+            phase_t[name] = round(phase_t.get(name, 0.0) + now - t_mark[0], 2)
+            t_mark[0] = now
         # ---- (0) field sets: every vlen 0..12 (exhaustive), real set_scputimes_ntuple vs model vs kernel order
         flines = [{"op": "fields", "vlen": v} for v in range(0, 13)]
         fouts = ctx.driver().batch(flines)
@@ -1419,17 +1697,32 @@ def correspond(ctx, res):
         if live is not None:
             lines.append(live)
             tags.append("live")
+        # malformed-token stream, systematically (every position × foreign / leading-zero tokens × short lines)
+        ml, mt = malformed_token_lines(ctx.rng, impl.tck)
+        if ctx.tier == "quick":
+            keep = sorted(ctx.rng.sample(range(len(ml)), min(len(ml), 150)))
+            ml, mt = [ml[k] for k in keep], [mt[k] for k in keep]
+        lines += ml
+        tags += mt
         order = sorted(range(len(lines)), key=lambda k: lines[k]["vlen"])
         lines = [lines[k] for k in order]
         tags = [tags[k] for k in order]
-        run_world(ctx, impl, res, lines, tags, cmp)
+        run_world(ctx, impl, res, lines, tags, cmp, tokhyp)
         unclaimed_tokens(ctx, impl, res)
         total_lines += len(lines)
+        phase("worlds")
+        # ---- (a') cpuN lines with their own numbers (offline CPUs are not printed)
+        nl_ = [gen_numbered(ctx.rng, impl, witness=True)] + [gen_numbered(ctx.rng, impl) for _ in range(ctx.n(80, 1500))]
+        nl_.sort(key=lambda l: l["vlen"])
+        run_numbered(ctx, impl, res, nl_, cmp, tokhyp)
+        total_lines += len(nl_)
+        phase("numbered")
         # ---- (b) call histories: corpus (L9 witness) first
         hists = [l9_witness(impl.tck)]
-        nh = ctx.n(700, 16000)
+        nh = ctx.n(600, 12000)
         for i in range(nh):
             hists.append(gen_call_history(ctx.rng, impl, CALL_FAMILIES[i % len(CALL_FAMILIES)]))
+        hists.extend(nbn_histories(ctx.rng, impl.tck))
         n_sampled = len(hists)
         hists.extend(exhaustive_delta_histories(impl.tck))
         res.exhaustive += ("; all %d combinations of delta ∈ {-5,0,1,30,100} ticks on user/idle/iowait/steal × both "
@@ -1438,7 +1731,7 @@ def correspond(ctx, res):
         CH = 400
         for a in range(0, len(hists), CH):
             chunk = hists[a:a + CH]
-            verdicts, nl = run_histories(ctx, impl, res, chunk, cmp)
+            verdicts, nl = run_histories(ctx, impl, res, chunk, cmp, tokhyp=tokhyp)
             total_lines += nl
             for h, v in zip(chunk, verdicts):
                 feats = history_features(h, impl.tck)
@@ -1450,8 +1743,11 @@ def correspond(ctx, res):
                          sample={"family": h["family"], "vlen": h["vlen"], "n_ops": len(h["ops"]),
                                  "first_op": {k: v for k, v in h["ops"][0].items() if k != "reads"}}
                          if len(res.samples) < 5 and h["family"] in ("subsecond", "threads", "corpus-L9") else None)
-        res.extra["concurrent_runs"] = concurrent_runs(ctx, impl, res, cmp, ctx.n(12, 300))
+        phase("histories")
+        res.extra["concurrent_runs"] = concurrent_runs(ctx, impl, res, cmp, ctx.n(10, 240))
+        phase("concurrent")
         res.extra["ident_reuse_runs"] = run_ident_reuse(ctx, impl, res, cmp, ctx.n(30, 600))
+        phase("ident_reuse")
         # ---- (b') fresh imports: the module-level priming code runs for real in a child interpreter
         ni = ctx.n(21, 280)
         ihists = [gen_import_case(ctx.rng, impl, IMPORT_FAMILIES[i % len(IMPORT_FAMILIES)]) for i in range(ni)]
@@ -1463,6 +1759,7 @@ def correspond(ctx, res):
             res.case(h, nontrivial=True,
                      sample={"family": h["family"], "import_on": h["import_on"], "n_ops": len(h["ops"])}
                      if h["family"] == "importer_first" and len(res.samples) < 6 else None)
+        phase("fresh_import")
         # ---- (c) Process.cpu_percent histories
         np_ = ctx.n(400, 8000)
         phists = [ncpu_witness(impl.tck)] + \
@@ -1476,6 +1773,12 @@ def correspond(ctx, res):
                 res.case(h, nontrivial=len(h["ops"]) >= 2,
                          sample={"family": h["family"], "objs": h["objs"], "first_op": h["ops"][0]}
                          if len(res.samples) < 6 and h["family"] == "objects" else None)
+        phase("process")
+        # ---- the token hypothesis: Python twins of the recognisers validated against the Lean ones
+        tokhyp.validate(ctx, ctx.n(1500, 20000))
+        total_lines += 1
+        phase("token_hypothesis")
+        res.extra["phase_seconds"] = phase_t
         res.extra["driver_lines"] = total_lines
     finally:
         impl.close()
@@ -1501,6 +1804,8 @@ def _fails_input(ctx, impl, inp, findings_on):
         run_import_histories(ctx, impl, r, [inp], cmp)
     elif kind in ("world", "raw"):
         run_world(ctx, impl, r, [inp["line"]], ["replay"], cmp)
+    elif kind == "percpul":
+        run_numbered(ctx, impl, r, [inp["line"]], cmp)
     elif kind == "fields":
         m = ctx.driver().batch([{"op": "fields", "vlen": inp["vlen"]}])[0]
         names = ["user", "nice", "system", "idle", "iowait", "irq", "softirq", "steal", "guest", "guest_nice"]
